@@ -14,6 +14,11 @@ class Cycles:
         self.procs = {i['id'] for i in items if i['kind'] == 'processor'}
         self.sources = {i['id']: i['ct'] for i in items if i['kind'] == 'source'}
         self.sinks = {i['id']: i.get('ct', 0) for i in items if i['kind'] == 'sink'}
+        # the cycle time each device is CONFIGURED to have, tracked from the specification, the scripted
+        # set_cycle operations and the receive-callback schedules - not read back from the library
+        self.cfg = {i['id']: i.get('ct', 0) for i in items if i['kind'] in ('handler', 'processor', 'sink')}
+        self.ct_script = {i['id']: i['ct_script'] for i in items if i.get('ct_script')}
+        self.n_accepts = {d: 0 for d in self.cfg}
         self.cur = {d: None for d in self.devs}
         self.offset = {d: 0 for d in self.devs}
         self.offset.update({k: 0 for k in self.sinks})
@@ -41,6 +46,8 @@ class Cycles:
             self.n_script += 1
             if op['op'] == 'offset_cycle' and op['target'] in self.offset:
                 self.offset[op['target']] += op['offset']
+            if op['op'] == 'set_cycle' and op['target'] in self.cfg:
+                self.cfg[op['target']] = op['ct']
         # lost parts reported in this event
         lost_now = []
         while self.n_shut < len(log.shutdowns):
@@ -70,6 +77,15 @@ class Cycles:
         while self.n_recv < len(log.receives):
             t, did, part, ct_read, ser, lvs, val = log.receives[self.n_recv]
             self.n_recv += 1
+            if did in self.cfg:
+                if did in self.ct_script:
+                    sc = self.ct_script[did]
+                    self.cfg[did] = sc[self.n_accepts[did] % len(sc)]
+                self.n_accepts[did] += 1
+                if ct_read != self.cfg[did]:
+                    ctx.report('cycle_time_in_effect', f'{did} accepted {part.name} at {t!r}: its cycle_time is '
+                               f'{ct_read!r} but it is configured to {self.cfg[did]!r}')
+                    return
             if did in self.sinks:
                 last = self.sink_last.get(did)
                 if last is not None and t - last[0] < last[1]:
